@@ -402,8 +402,135 @@ Definition one_external (bs : list schema) : bool :=
   | _ => match xall_names bs with Some names => nodup_names names | None => false end
   end.
 
+(* ---- adjacently / internally tagged: object branches with a constant-string tag property
+   util.rs:460-527 constant_string_value: `{"type":"string","enum":[x]}`, `{"enum":[x]}`, `{"type":"string","const":x}`,
+   `{"const":x}` with nothing else but annotations *)
+Definition cstr (s : schema) : option ustring :=
+  match s with
+  | SObj ty None enum cst nv sv ItemsAbsent [] None None None false [] [] None None None None None None None None _ _ =>
+      if numv_is_none nv && strv_is_none sv
+         && match ty with None | Some [TString] => true | _ => false end
+      then match enum, cst with
+           | Some [JStr x], None => Some x
+           | None, Some (JStr x) => Some x
+           | _, _ => None
+           end
+      else None
+  | _ => None
+  end.
+
+(* util.rs:619-643 get_object, restricted to the plain typed form: (properties, required, closed) *)
+Definition tobj (b : schema) : option (list (ustring * schema) * list ustring * bool) :=
+  match b with
+  | SObj (Some [TObject]) None None None nv sv ItemsAbsent [] None None None false props req ap None None None None None
+         None None None None =>
+      if numv_is_none nv && strv_is_none sv && negb (is_nil props) then
+        match ap with
+        | None => Some (props, req, false)
+        | Some (SBool false) => Some (props, req, true)
+        | Some _ => None
+        end
+      else None
+  | _ => None
+  end.
+
+Fixpoint tobjs (bs : list schema) : option (list (list (ustring * schema) * list ustring * bool)) :=
+  match bs with
+  | [] => Some []
+  | b :: r => match tobj b, tobjs r with
+              | Some t, Some l => Some (t :: l)
+              | _, _ => None
+              end
+  end.
+
+Definition tb_props (t : list (ustring * schema) * list ustring * bool) := fst (fst t).
+Definition tb_req (t : list (ustring * schema) * list ustring * bool) := snd (fst t).
+Definition tb_closed (t : list (ustring * schema) * list ustring * bool) := snd t.
+
+(* on such branches the shape test of maybe_externally_tagged_enum is: one property, one required name,
+   the property names pairwise distinct *)
+Definition ext_on_tobjs (L : list (list (ustring * schema) * list ustring * bool)) : bool :=
+  forallb (fun t => (length (tb_props t) =? 1)%nat && (length (tb_req t) =? 1)%nat) L
+  && nodup_names (flat_map (fun t => map fst (tb_props t)) L).
+
+Fixpoint dedup (l : list ustring) : list ustring :=
+  match l with [] => [] | x :: r => if mem_ustr x r then dedup r else x :: dedup r end.
+
+Definition tb_consts (t : list (ustring * schema) * list ustring * bool) : list ustring :=
+  map fst (filter (fun kv => match cstr (snd kv) with Some _ => true | None => false end) (tb_props t)).
+
+(* enums.rs:452-499: one tag property (constant in every branch), two property names in all *)
+Definition one_adjacent (L : list (list (ustring * schema) * list ustring * bool)) : option (ustring * ustring) :=
+  match L with
+  | [] => None
+  | t0 :: r =>
+      if forallb (fun t => (length (tb_props t) =? length (tb_req t))%nat) L then
+        let tags := fold_left (fun acc t => filter (fun k => mem_ustr k (tb_consts t)) acc) r (tb_consts t0) in
+        let names := dedup (flat_map (fun t => map fst (tb_props t)) L) in
+        match tags with
+        | [tg] =>
+            if (length names =? 2)%nat then
+              match filter (fun k => negb (ustr_eqb k tg)) names with
+              | [ct] => Some (tg, ct)
+              | _ => None
+              end
+            else None
+        | _ => None
+        end
+      else None
+  end.
+
+(* enums.rs:318-371: the required constant-string properties common to all branches with pairwise
+   different values; the least one is the tag *)
+Definition tb_cmap (t : list (ustring * schema) * list ustring * bool) : list (ustring * ustring) :=
+  flat_map (fun kv => if mem_ustr (fst kv) (tb_req t)
+                      then match cstr (snd kv) with Some v => [(fst kv, v)] | None => [] end
+                      else []) (tb_props t).
+
+Fixpoint opt_all_map {A B} (f : A -> option B) (l : list A) : option (list B) :=
+  match l with
+  | [] => Some []
+  | x :: r => match f x, opt_all_map f r with Some y, Some ys => Some (y :: ys) | _, _ => None end
+  end.
+
+Fixpoint least (l : list ustring) : option ustring :=
+  match l with
+  | [] => None
+  | x :: r => match least r with
+              | Some y => Some (if ustr_ltb y x then y else x)
+              | None => Some x
+              end
+  end.
+
+Definition one_internal (L : list (list (ustring * schema) * list ustring * bool)) : option ustring :=
+  match L with
+  | [] => None
+  | t0 :: _ =>
+      least (filter (fun k => match opt_all_map (fun t => assoc k (tb_cmap t)) L with
+                              | Some vals => nodup_names vals
+                              | None => false
+                              end) (map fst (tb_cmap t0)))
+  end.
+
+(* enums.rs via convert.rs:1579-1611: external, then adjacent, then internal *)
 Definition one_kind (bs : list schema) : option tagty :=
-  if one_external bs then Some TagExternal else None.
+  if one_external bs then Some TagExternal else
+  match bs with
+  | [] => None
+  | _ =>
+      match tobjs bs with
+      | None => None
+      | Some L =>
+          if ext_on_tobjs L then None        (* externally tagged in a form the model does not take *)
+          else match one_adjacent L with
+               | Some (tg, ct) => Some (TagAdjacent tg ct)
+               | None => match one_internal L with
+                         | Some tg => Some (TagInternal tg)
+                         | None => None
+                         end
+               end
+      end
+  end.
 
 Section Classify.
   Variable ty : option (list itype).
@@ -687,6 +814,106 @@ Section Convert.
           end
       end.
 
+    (* enums.rs:529-589 adjacent_variant, per branch: the tag alone -> unit variant; tag + content -> the
+       content as the payload, under Name::append(content) for a Required name and Name::append(variant)
+       otherwise *)
+    Definition conv_avariant (nm : name) (tg ct : ustring) (b : schema) (s : st)
+      : option (ustring * vdetails * bool * st) :=
+      match b with
+      | SObj _ _ _ _ _ _ _ _ _ _ _ _ props _ _ _ _ _ _ _ _ _ _ _ =>
+          let payload (vname : option ustring) (sc : schema) :=
+            match vname with
+            | None => None
+            | Some v =>
+                match conv_xvar nm (match nm with NRequired _ => ct | _ => v end) sc s with
+                | Some (vd, deny, s1) => Some (v, vd, deny, s1)
+                | None => None
+                end
+            end in
+          match props with
+          | [(k1, s1)] => match cstr s1 with Some v => Some (v, VSimple, false, s) | None => None end
+          | [(k1, s1); (k2, s2)] =>
+              if ustr_eqb k1 tg then payload (cstr s1) s2 else payload (cstr s2) s1
+          | _ => None
+          end
+      | SBool _ => None
+      end.
+
+    Definition conv_abranches (nm : name) (tg ct : ustring)
+      : list schema -> st -> option (list (ustring * vdetails) * bool * st) :=
+      fix go (bs : list schema) (s : st) {struct bs} : option (list (ustring * vdetails) * bool * st) :=
+        match bs with
+        | [] => Some ([], false, s)
+        | b :: r =>
+            match conv_avariant nm tg ct b s with
+            | None => None
+            | Some (v, vd, d1, s1) =>
+                match go r s1 with
+                | None => None
+                | Some (vs2, d2, s2) => Some ((v, vd) :: vs2, d1 || d2, s2)
+                end
+            end
+        end.
+
+    (* structs.rs:19-146 struct_members on the properties other than the tag (enums.rs:421-427) *)
+    Definition conv_props_skip (tg : ustring) (base : option ustring) (req : list ustring)
+      : list (ustring * schema) -> st -> option (list prop * st) :=
+      fix go (ps : list (ustring * schema)) (s : st) {struct ps} : option (list prop * st) :=
+        match ps with
+        | [] => Some ([], s)
+        | (k, s') :: r =>
+            if ustr_eqb k tg then go r s else
+            match match base with
+                  | Some b => conv_prop b req k s' s
+                  | None => None
+                  end with
+            | None => None
+            | Some (p, s1) =>
+                match go r s1 with
+                | None => None
+                | Some (l, s2) => Some (p :: l, s2)
+                end
+            end
+        end.
+
+    (* enums.rs:402-438 internal_variant *)
+    Definition conv_ivariant (nm : name) (tg : ustring) (b : schema) (s : st)
+      : option (ustring * vdetails * st) :=
+      match b with
+      | SObj _ _ _ _ _ _ _ _ _ _ _ _ props req _ _ _ _ _ _ _ _ _ _ =>
+          match props with
+          | [(k1, s1)] => match cstr s1 with Some v => Some (v, VSimple, s) | None => None end
+          | _ =>
+              match match assoc tg props with Some ts => cstr ts | None => None end with
+              | None => None
+              | Some v =>
+                  match conv_props_skip tg (name_opt nm) req props s with
+                  | None => None
+                  | Some (ps, s1) =>
+                      let ps' := sort_props ps in
+                      if Sanitize.unique (map p_name ps') then Some (v, VStruct ps', s1) else None
+                  end
+              end
+          end
+      | SBool _ => None
+      end.
+
+    Definition conv_ibranches (nm : name) (tg : ustring)
+      : list schema -> st -> option (list (ustring * vdetails) * st) :=
+      fix go (bs : list schema) (s : st) {struct bs} : option (list (ustring * vdetails) * st) :=
+        match bs with
+        | [] => Some ([], s)
+        | b :: r =>
+            match conv_ivariant nm tg b s with
+            | None => None
+            | Some (v, vd, s1) =>
+                match go r s1 with
+                | None => None
+                | Some (vs2, s2) => Some ((v, vd) :: vs2, s2)
+                end
+            end
+        end.
+
     (* enums.rs:207-245: the variants in branch order; deny_unknown_fields |= deny *)
     Definition conv_xbranches (nm : name) : list schema -> st -> option (list (ustring * vdetails) * bool * st) :=
       fix go (bs : list schema) (s : st) {struct bs} : option (list (ustring * vdetails) * bool * st) :=
@@ -743,7 +970,33 @@ Section Convert.
                   match mk_tagged n TagExternal rvs deny with Some d => Some (d, s1) | None => None end
               end
           end
-      | KOne _ => None
+      | KOne (TagAdjacent tg ct) =>
+          match type_name nm with
+          | None => None
+          | Some n =>
+              match match oneo with Some bs => conv_abranches nm tg ct bs s | None => None end with
+              | None => None
+              | Some (rvs, deny, s1) =>
+                  match mk_tagged n (TagAdjacent tg ct) rvs deny with Some d => Some (d, s1) | None => None end
+              end
+          end
+      | KOne (TagInternal tg) =>
+          match type_name nm with
+          | None => None
+          | Some n =>
+              match match oneo with Some bs => conv_ibranches nm tg bs s | None => None end with
+              | None => None
+              | Some (rvs, s1) =>
+                  (* enums.rs:374-385: deny_unknown_fields iff some branch has additionalProperties: false *)
+                  let deny := match oneo with
+                              | Some bs => existsb (fun b => match sch_additional_props b with
+                                                             | Some (SBool false) => true | _ => false end) bs
+                              | None => false
+                              end in
+                  match mk_tagged n (TagInternal tg) rvs deny with Some d => Some (d, s1) | None => None end
+              end
+          end
+      | KOne TagUntagged => None
       | KBool => Some (DBoolean, s)
       | KStr => Some (DString, s)
       | KNull => Some (DUnit, s)
@@ -911,6 +1164,45 @@ Definition u32_ok (o : option N) : bool := match o with Some n => n <? 429496729
 Definition strc_ok (mx mn : option N) (pat : option ustring) : bool :=
   u32_ok mx && u32_ok mn && match pat with Some p => pat_safe p | None => true end.
 
+(* enums.rs:550-566: the name under which the content of an adjacently tagged variant is converted *)
+Definition adj_name (nm : name) (ct v : ustring) : name :=
+  append_name nm (match nm with NRequired _ => ct | _ => v end).
+
+(* the type positions below one branch of a tagged oneOf, with the names they are converted under
+   (open recursion: [f] is the function being defined - names_of / frag / byval_refs) *)
+Definition branch_fold {X} (cls : Heck.CharClasses) (tg : tagty) (nm : name) (f : schema -> name -> X)
+           (app : X -> X -> X) (nil : X) (b : schema) : X :=
+  match b with
+  | SObj _ _ _ _ _ _ _ _ _ _ _ _ bprops _ _ _ _ _ _ _ _ _ _ _ =>
+      match tg with
+      | TagExternal =>
+          match bprops with
+          | [(v, sc)] => f sc (append_name nm v)
+          | _ => nil
+          end
+      | TagAdjacent t c =>
+          match bprops with
+          | [(k1, s1); (k2, s2)] =>
+              if ustr_eqb k1 t
+              then match cstr s1 with Some v => f s2 (adj_name nm c v) | None => nil end
+              else match cstr s2 with Some v => f s1 (adj_name nm c v) | None => nil end
+          | _ => nil
+          end
+      | TagInternal t =>
+          match name_opt nm with
+          | Some base =>
+              (fix gp (ps : list (ustring * schema)) {struct ps} : X :=
+                 match ps with
+                 | [] => nil
+                 | (k, s') :: q => app (if ustr_eqb k t then nil else f s' (prop_type_name cls base k)) (gp q)
+                 end) bprops
+          | None => nil
+          end
+      | TagUntagged => nil
+      end
+  | SBool _ => nil
+  end.
+
 (* a non-nullable oneOf node *)
 Definition is_one (s : schema) : bool :=
   match classify_s s with Some (_, KOne _) => true | _ => false end.
@@ -932,6 +1224,82 @@ Definition payloads_ok (bs : list schema) : bool :=
      | [] => true
      | d :: r => forallb (Bool.eqb d) r
      end.
+
+Fixpoint keys_sorted_b (l : list ustring) : bool :=
+  match l with
+  | a :: ((b :: _) as r) => ustr_ltb a b && keys_sorted_b r
+  | _ => true
+  end.
+
+(* the taggings the theorems of Props/C0xF.v cover so far (the model and K3 cover all of them: frag_w) *)
+Definition proved_tag (tg : tagty) : bool :=
+  match tg with TagExternal => true | _ => false end.
+
+(* the raw variant names, in branch order *)
+Definition variant_names (tg : tagty) (bs : list schema) : option (list ustring) :=
+  match tg with
+  | TagExternal => xall_names bs
+  | TagAdjacent t _ | TagInternal t =>
+      opt_all_map (fun b => match assoc t (sch_props b) with Some ts => cstr ts | None => None end) bs
+  | TagUntagged => None
+  end.
+
+(* the tag schema in the form the validators read: {"type":"string","enum":[x]} and nothing else *)
+Definition tag_plain (ts : schema) : bool :=
+  match ts with
+  | SObj (Some [TString]) None (Some [JStr _]) None nv sv ItemsAbsent [] None None None false [] [] None None None None None
+         None None None None None => numv_is_none nv && strv_is_none sv
+  | _ => false
+  end.
+
+(* payload conditions for a list of payload schemas (see payloads_ok) *)
+Definition payloads_ok_l (L : list schema) : bool :=
+  forallb (fun sc => match classify_s sc with Some (false, KNull) => false | _ => true end) L
+  && match flat_map (fun sc => match struct_deny sc with Some d => [d] | None => [] end) L with
+     | [] => true
+     | d :: r => forallb (Bool.eqb d) r
+     end.
+
+Definition contents (ct : ustring) (bs : list schema) : list schema :=
+  flat_map (fun b => match assoc ct (sch_props b) with Some sc => [sc] | None => [] end) bs.
+
+(* conditions on the branches of a tagged oneOf beyond the shape test of the converter:
+   * adjacent: every branch closed and requiring all its members (an open branch, or an optional content,
+     is valid for objects the enum rejects: the shape of finding C02-F2), the tag in plain form, the
+     contents as the payloads of an external enum;
+   * internal: the tag in plain form, required names all declared, members sorted / distinct identifiers
+     as for a struct, no optional tagged-oneOf member, and the branches all closed or all open (the flag
+     is the enum's: a mix is finding C02-F1). *)
+Definition branches_ok (cls : Heck.CharClasses) (tg : tagty) (bs : list schema) : bool :=
+  match tg with
+  | TagExternal => payloads_ok bs
+  | TagAdjacent t c =>
+      forallb (fun b => match tobj b with
+                        | Some (props, req, closed) =>
+                            closed && forallb (fun kv => mem_ustr (fst kv) req) props
+                            && forallb (fun r => has_key r props) req
+                            && match assoc t props with Some ts => tag_plain ts | None => false end
+                        | None => false
+                        end) bs
+      && payloads_ok_l (contents c bs)
+  | TagInternal t =>
+      forallb (fun b => match tobj b with
+                        | Some (props, req, closed) =>
+                            let rest := filter (fun kv => negb (ustr_eqb (fst kv) t)) props in
+                            match assoc t props with Some ts => tag_plain ts | None => false end
+                            && forallb (fun r => has_key r props) req
+                            && keys_sorted_b (map fst props)
+                            && Sanitize.unique (map (fun kv => fst (Sanitize.recase cls (fst kv) Sanitize.Snake)) rest)
+                            && forallb (fun kv => mem_ustr (fst kv) req || negb (is_one (snd kv))) rest
+                        | None => false
+                        end) bs
+      && match bs with
+         | [] => true
+         | b0 :: r => forallb (fun b => Bool.eqb (match sch_additional_props b0 with Some (SBool false) => true | _ => false end)
+                                                 (match sch_additional_props b with Some (SBool false) => true | _ => false end)) r
+         end
+  | TagUntagged => false
+  end.
 
 Section Frag.
   Variable cls : Heck.CharClasses.
@@ -969,24 +1337,15 @@ Section Frag.
                    | [] => []
                    | it :: r => names_of it (idx_name nm' i) ++ go r (S i)
                    end) items 0%nat
-            | KOne _ =>
-                (* the typed branches, under Name::append(variant name); a struct payload's own name is
-                   listed although the struct itself is dissolved into the variant (harmless: it only
-                   asks for one more fresh name) *)
+            | KOne tg =>
+                (* the payloads / members below the branches (a dissolved struct's own name is listed
+                   although the struct itself never gets an id: it only asks for one more fresh name) *)
                 match oneo with
                 | Some bs =>
                     (fix go (l : list schema) {struct l} : list ustring :=
                        match l with
                        | [] => []
-                       | b :: r =>
-                           match b with
-                           | SObj _ _ _ _ _ _ _ _ _ _ _ _ bprops _ _ _ _ _ _ _ _ _ _ _ =>
-                               match bprops with
-                               | [(v, sc)] => names_of sc (append_name nm' v)
-                               | _ => []
-                               end
-                           | SBool _ => []
-                           end ++ go r
+                       | b :: r => branch_fold cls tg nm' names_of (@app ustring) [] b ++ go r
                        end) bs
                 | None => []
                 end
@@ -1035,26 +1394,69 @@ Section Frag.
                 end
             | KVec _ | KTuple => forallb frag items
             | KRef r => mem_ustr r keys
-            | KOne _ =>
+            | KOne tg =>
                 match oneo with
                 | Some bs =>
-                    match xall_names bs with
+                    match variant_names tg bs with
                     | Some names => match Sanitize.variant_idents cls names with Sanitize.Ok _ => true | _ => false end
                     | None => false
                     end
-                    && payloads_ok bs
+                    && branches_ok cls tg bs
                     && (fix go (l : list schema) {struct l} : bool :=
                           match l with
                           | [] => true
-                          | b :: r =>
-                              match b with
-                              | SObj _ _ _ _ _ _ _ _ _ _ _ _ bprops _ _ _ _ _ _ _ _ _ _ _ =>
-                                  match bprops with
-                                  | [(v, sc)] => frag sc
-                                  | _ => true
-                                  end
-                              | SBool _ => true
-                              end && go r
+                          | b :: r => branch_fold cls tg (NRequired []) (fun sc _ => frag sc) andb true b && go r
+                          end) bs
+                    && proved_tag tg
+                | None => false
+                end
+            | _ => true
+            end
+        end
+    end.
+
+  (* the same with every tagging the MODEL covers (what K3 compares; no theorem is about frag_w);
+     `true` is accepted only as additionalProperties (see notes/Convert.md) *)
+  Fixpoint frag_w (s : schema) {struct s} : bool :=
+    match s with
+    | SBool _ => false
+    | SObj ty fmt enum cst nv sv ik items ai mni mxi uq props req ap mnp mxp allo anyo oneo no ref dflt title =>
+        match classify ty fmt enum cst nv sv ik items ai mni mxi uq props req ap mnp mxp allo anyo oneo no ref dflt title with
+        | None => false
+        | Some (_, k) =>
+            match k with
+            | KEnum raws =>
+                match Sanitize.variant_idents cls raws with Sanitize.Ok _ => true | _ => false end
+            | KStrC mx mn pat => strc_ok mx mn pat
+            | KStruct _ =>
+                keys_sorted (map fst props)
+                && forallb (fun r => has_key r props) req
+                && Sanitize.unique (field_idents props)
+                (* an OPTIONAL member whose schema is a tagged oneOf becomes Option<enum>; the validators
+                   Check/Covers.v and Check/Exact.v compare every branch of a union with the inner type of
+                   an Option, which a tagged enum does not pass branch by branch: left out (a limitation of
+                   the validators, not of the converter) *)
+                && forallb (fun kv => mem_ustr (fst kv) req || negb (is_one (snd kv))) props
+                && forallb (fun kv => frag_w (snd kv)) props
+            | KMap =>
+                match ap with
+                | Some (SBool true) | None => true
+                | Some vs => frag_w vs
+                end
+            | KVec _ | KTuple => forallb frag_w items
+            | KRef r => mem_ustr r keys
+            | KOne tg =>
+                match oneo with
+                | Some bs =>
+                    match variant_names tg bs with
+                    | Some names => match Sanitize.variant_idents cls names with Sanitize.Ok _ => true | _ => false end
+                    | None => false
+                    end
+                    && branches_ok cls tg bs
+                    && (fix go (l : list schema) {struct l} : bool :=
+                          match l with
+                          | [] => true
+                          | b :: r => branch_fold cls tg (NRequired []) (fun sc _ => frag_w sc) andb true b && go r
                           end) bs
                 | None => false
                 end
@@ -1074,21 +1476,13 @@ Fixpoint byval_refs (s : schema) {struct s} : list ustring :=
       | Some (_, KRef r) => [r]
       | Some (_, KStruct _) => flat_map (fun kv => byval_refs (snd kv)) props
       | Some (_, KVec (CArr _)) | Some (_, KTuple) => flat_map byval_refs items      (* [T; n] contains T by value (cycles.rs:169) *)
-      | Some (_, KOne _) =>              (* the variants' data is held by value *)
+      | Some (_, KOne tg) =>              (* the variants' data is held by value *)
           match oneo with
           | Some bs =>
               (fix go (l : list schema) {struct l} : list ustring :=
                  match l with
                  | [] => []
-                 | b :: r =>
-                     match b with
-                     | SObj _ _ _ _ _ _ _ _ _ _ _ _ bprops _ _ _ _ _ _ _ _ _ _ _ =>
-                         match bprops with
-                         | [(v, sc)] => byval_refs sc
-                         | _ => []
-                         end
-                     | SBool _ => []
-                     end ++ go r
+                 | b :: r => branch_fold Sanitize.ascii_classes tg (NRequired []) (fun sc _ => byval_refs sc) (@app ustring) [] b ++ go r
                  end) bs
           | None => []
           end
@@ -1136,6 +1530,14 @@ Definition in_frag (cls : Heck.CharClasses) (D : defs) : bool :=
   keys_sorted (map fst D)
   && forallb (fun kv => def_key_ok (fst kv)) D
   && forallb (fun kv => frag cls (map fst D) (snd kv)) D
+  && Sanitize.unique (all_names cls D)
+  && byval_acyclic D.
+
+(* the documents K3 compares: in_frag with every modelled tagging *)
+Definition in_frag_w (cls : Heck.CharClasses) (D : defs) : bool :=
+  keys_sorted (map fst D)
+  && forallb (fun kv => def_key_ok (fst kv)) D
+  && forallb (fun kv => frag_w cls (map fst D) (snd kv)) D
   && Sanitize.unique (all_names cls D)
   && byval_acyclic D.
 
